@@ -1,4 +1,4 @@
-From MV Require Import Lib.ExtractBase C03.Model C04.Model.
+From MV Require Import Lib.ExtractBase C03.Model C03.ModelK C03.ModelRB C03.Futex C04.Model.
 From Coq Require Import ExtrOcamlBasic.
 Extraction Language OCaml.
 Extraction "c03_model" force_types
@@ -7,4 +7,7 @@ Extraction "c03_model" force_types
   ginit gstep g_cursor g_pc g_thr
   qinit qstep q_cnt q_pc q_thr
   dinit dstep d_back d_pc d_thr
+  kinit kstep k_wcur k_rcur k_lock k_pc k_k k_ok k_thr
+  binit bstep b_cursor b_pc b_thr
+  sched_wait sched_wake_one sched_wake_all
   linit lstep l_counter l_overlaps l_pc l_thr.
